@@ -433,7 +433,7 @@ theorem pickOf_found (s : State) (rp : Repo) (arg : String) (accept : List Strin
 theorem isTag_ne_empty (t : String) (h : isTag t = true) : t ≠ "" := by
   intro h0; subst h0; simp [isTag] at h
 
-theorem getDesc_tag (ix : Index) (arg : String) (desc : Desc) (ht : isTag arg = true) (h : getDesc ix arg = some desc) :
+theorem getDesc_tag_mem (ix : Index) (arg : String) (desc : Desc) (ht : isTag arg = true) (h : getDesc ix arg = some desc) :
     desc ∈ ix.manifests ∧ desc.ann.isNil = false ∧ desc.ann.tag = arg := by
   unfold getDesc at h
   split at h
@@ -463,7 +463,7 @@ theorem getDescDig_mem (ix : Index) (g : String) (desc : Desc) (h : getDescDig i
         simp only [Option.map_some, Option.some.injEq] at h
         exact ⟨d, List.mem_append_right _ (List.mem_of_find?_eq_some hc), by simpa using List.find?_some hc, h.symm⟩
 
-theorem getDesc_dig (ix : Index) (arg : String) (desc : Desc) (ht : isTag arg = false) (h : getDesc ix arg = some desc) :
+theorem getDesc_dig_mem (ix : Index) (arg : String) (desc : Desc) (ht : isTag arg = false) (h : getDesc ix arg = some desc) :
     ∃ d, DigArg.parse arg = .ok d ∧ ∃ e ∈ ix.manifests ++ ix.children, e.dig = d.str ∧
       desc = { mt := e.mt, dig := e.dig, size := e.size } := by
   unfold getDesc at h
@@ -491,15 +491,15 @@ theorem mGet_no_5xx_of_readOK (s : State) (r arg : String) (accept : List String
   -- the digest of whatever the lookup returned parses
   have hdesc : parses desc.dig = true := by
     cases ht : isTag arg with
-    | true => exact hok.digs desc (List.mem_append_left _ (getDesc_tag _ _ _ ht hg).1)
+    | true => exact hok.digs desc (List.mem_append_left _ (getDesc_tag_mem _ _ _ ht hg).1)
     | false =>
-      obtain ⟨d, _, e, he, _, hde⟩ := getDesc_dig _ _ _ ht hg
+      obtain ⟨d, _, e, he, _, hde⟩ := getDesc_dig_mem _ _ _ ht hg
       rw [hde]; exact hok.digs e he
   -- opening a tagged index
   have hopen : isTag arg = true → isIndexMT desc.mt = true → ∀ dg content, DigArg.parse desc.dig = .ok dg →
       (s.repo r).blob dg = some content → ∃ v, (s.body content).asIndex = some v ∧ ∀ c ∈ v.children, parses c.dig = true := by
     intro ht hi dg content hd hb
-    obtain ⟨hm, hn, htag⟩ := getDesc_tag _ _ _ ht hg
+    obtain ⟨hm, hn, htag⟩ := getDesc_tag_mem _ _ _ ht hg
     exact hok.opens desc hm hn (by rw [htag]; exact isTag_ne_empty _ ht) hi dg content hd hb
   rcases h with h | ⟨d, h, hbad⟩
   · obtain ⟨_, _, hi, ht, h5⟩ := (pickOf_serverError_iff _ _ _ _ _).mp h
